@@ -42,6 +42,7 @@ import CoreDhcp.Props.GenStorage
 import CoreDhcp.Props.GenEthernet
 import CoreDhcp.Props.GenServeLoop
 import CoreDhcp.Props.GenFileSetup
+import CoreDhcp.Props.GenRangeSetup
 open CoreDhcp
 #print axioms C20_offset_exact
 #print axioms C20_offset_symm
@@ -413,3 +414,23 @@ open CoreDhcp
 #print axioms FILESETUP_later_good_version_picked_up
 #print axioms FILESETUP_replaced_file_is_watched_again
 #print axioms FILESETUP_watch_survives_replacements
+#print axioms GEN_rangesetup_setup_eq
+#print axioms GEN_rangesetup_plugin_eq
+#print axioms RangeSetup.setup_handler
+#print axioms RANGESETUP_no_partial_state
+#print axioms RANGESETUP_accepts_iff
+#print axioms RANGESETUP_argument_roles
+#print axioms RANGESETUP_range_wellformed
+#print axioms RANGESETUP_one_address_range_rejected
+#print axioms RangeSetup.goRoundSecond_of_nonneg
+#print axioms RangeSetup.goRoundSecond_of_accepted
+#print axioms RangeSetup.goRoundSecond_whole
+#print axioms RANGESETUP_lease_is_kept_lease
+#print axioms RANGESETUP_accepted_lease_fits_wire
+#print axioms RANGESETUP_extra_args_ignored
+#print axioms RANGESETUP_plugin_decl
+#print axioms A4.allocate_keeps_bounds
+#print axioms remark_keeps_bounds
+#print axioms RANGESETUP_allocator_never_refuses
+#print axioms RANGESETUP_accepted_starts_handler
+#print axioms RANGESETUP_accepted_serves_C02_C03
